@@ -131,7 +131,7 @@ func (i *interpreter) mapLookup(m *omap, key value) (value, bool) {
 
 func (i *interpreter) mapInsert(m *omap, key, v value) {
 	if m == nil {
-		panic("assignment to entry in nil map")
+		panic(rtPanic("assignment to entry in nil map"))
 	}
 	p := i.mapFind(m, key)
 	if p >= 0 {
